@@ -519,6 +519,10 @@ func checkC11(c *Ctx) {
 		}
 	}
 
+	// ---- C11.13 "never hangs": the liveness probe every ZMQ registration goes through cannot deadlock on its own cache
+	// lock (shared with C09.17)
+	checkLRUNotUnderLock(c, "C11.13")
+
 	// ---- C11.11 no unbounded recursion on the externally reachable paths: a function that calls itself does so on a path
 	// that makes progress. The one self-call of today's tree is the fallback of DecoyRegistration.String() when
 	// json.Marshal of its digest fails - reviewed: it is unreachable as long as every field of the digest has a type
